@@ -51,6 +51,7 @@ def step (st : St) (toks : List String) : St × String :=
   -- transaction index, ids of what the bytes deserialize to, "region = slice of the stored block")
   -- and the expected values are computed by the generator from the node's in-memory blocks
   | ["cnode"] => (st, "ok")
+  | ["crestart"] => (st, "ok")
   | "cdeliver" :: _ => (st, "done")
   | ["cblock", id, len, ntx] => (st, len ++ " " ++ id ++ " " ++ ntx)
   | ["chdr", _] => (st, "84 true")
